@@ -946,15 +946,15 @@ func checkSpecialClassesFirst(c *core.Ctx, prog *core.Prog, r *core.Rule) {
 	}
 }
 
-
 // checkPatternTextUnchanged (R08.5, S1). The text the regex compiler sees is the text the document has: from
 // RawSchema.Pattern to Schema.Pattern to ogenregex.Compile nothing rewrites it. ECMA-262 gives every character of the
 // `pattern` keyword a meaning (it is the RegExp *source*, not a /literal/), so any trimming, unwrapping, anchoring or
 // case folding on the way changes the set of accepted strings, and the compiled pattern no longer reports its source.
-//   (a) whatever is stored into jsonschema.Schema.Pattern is a direct load of a field named Pattern of a jsonschema
-//       struct (RawSchema, Schema), or — in gen.mergeSchemes only — the result of the function-local selector applied to
-//       two such loads (allOf merge: one of the two);
-//   (b) the argument of every ogenregex.Compile / MustCompile call outside package ogenregex is such a load.
+//
+//	(a) whatever is stored into jsonschema.Schema.Pattern is a direct load of a field named Pattern of a jsonschema
+//	    struct (RawSchema, Schema), or — in gen.mergeSchemes only — the result of the function-local selector applied to
+//	    two such loads (allOf merge: one of the two);
+//	(b) the argument of every ogenregex.Compile / MustCompile call outside package ogenregex is such a load.
 func checkPatternTextUnchanged(c *core.Ctx) error {
 	r := c.NewRule("R08.5", "S1", "the pattern text reaches the regex compiler unchanged (no rewriting between the document and ogenregex.Compile)", 3)
 	prog, err := c.Program("./jsonschema", "./gen", "./gen/ir", "./openapi/parser")
